@@ -56,7 +56,7 @@ def _case(draw, unit):
             'size': size,
             'N': draw(st.sampled_from([1, 1, 2])), 'C': draw(st.sampled_from([1, 2, 3])),
             'dtype': draw(st.sampled_from(['f64', 'f64', 'f64', 'f32'])),
-            'low': low, 'highs': his,
+            'low': low, 'highs': his, 'filt_form': draw(st.sampled_from(['names', 'names', 'names', 'tuples'])),
             'rx': draw(core.recipe_strategy()), 'rp': draw(core.recipe_strategy()),
             'k': draw(st.integers(0, 10**6))}
 
@@ -97,6 +97,7 @@ def run_case(case):
     labs = dtu.size_labels(H, W, J)
     r.label(*labs)
     r.label('J>=2' if J >= 2 else None, case['dtype'], 'something_absent' if some_absent else None,
+            'filters_as_' + case.get('filt_form', 'names'),
             'low_absent' if case['low'] != 'present' else None,
             *['absent_as_' + k for k in set([case['low']] + case['highs']) if k != 'present'],
             'absent_with_finer_present' if any(
@@ -105,7 +106,8 @@ def run_case(case):
             'ambiguous_absent' if amb else None)
     r.nontrivial = J >= 2 and (bool(labs) or some_absent)
     with dwtu.default_dtype(tdt):
-        inv = DTCWTInverse(biort=b, qshift=q)
+        ib, iq = dtu.filt_args(b, q, case.get('filt_form', 'names'), inverse=True)
+        inv = DTCWTInverse(biort=ib, qshift=iq)
     total = dwtu.pyr_total(lo_shape, hi_shapes)
     He, We = H + H % 2, W + W % 2
 
